@@ -1,7 +1,7 @@
 (* Proofs/C14_prog.v -- the branches of bessel_j0 / bessel_j1 / bessel_j2 (hand model Hand/Bessel.v) REIFIED as programs of Hand/Prog.v, so that the
    program theorems of C03 / C04 apply to them: first, second, third and mixed second derivatives, every direction of every type, and agreement
    between types -- for the approximating functions the code computes (closeness to the true J_n is not a statement about dual numbers). *)
-From ND Require Import Tactics C02_proofs C01_towers C01_faa C07_proofs C09_proofs Prog Agree C04_inst C03_proofs C03_second C03_third C03_mixed Bessel C14_proofs.
+From ND Require Import Tactics C02_proofs C01_towers C01_faa C07_proofs C09_proofs Prog Agree C04_inst C03_proofs C03_second C03_third C03_mixed C03_mixed3 Bessel C14_proofs.
 From NDgen Require Import Gen_Bessel.
 Local Open Scope R_scope.
 
@@ -163,6 +163,12 @@ Section Transfer.
     - apply mixed_second_order; [constructor; [exact H|constructor] | apply HokR; exact Hk].
     - apply locally_true; intros s; apply locally_true; intros t; apply HgR.
   Qed.
+  Lemma tr_mixed3 s0 t0 u0 v (X : HyperHyperDual R) : RepT s0 t0 u0 v X -> ok (v s0 t0 u0) -> RepT s0 t0 u0 (fun s t u => g (v s t u)) (eval (X :: nil) P).
+  Proof.
+    intros H Hk. apply (repT_ext s0 t0 u0 (fun s t u => eval (T:=R) (at_stu (v :: nil) s t u) P)).
+    - apply mixed_third_order; [constructor; [exact H|constructor] | apply HokR; exact Hk].
+    - intros s t u; apply HgR.
+  Qed.
 End Transfer.
 
 Lemma repX_ext {L X : Type} (part : X -> list L -> R) (wf : X -> Prop) (l : L) t0 (f g : R -> R) x :
@@ -175,6 +181,7 @@ Definition BranchOK (g : R -> R) (ok : R -> Prop) (br : forall (T : Type) (dn : 
   (forall t0 v (X : Dual2 R), Rep2 t0 v X -> ok (v t0) -> Rep2 t0 (fun t => g (v t)) (br _ _ X)) /\
   (forall t0 v (X : Dual3 R), Rep3 t0 v X -> ok (v t0) -> Rep3 t0 (fun t => g (v t)) (br _ _ X)) /\
   (forall s0 t0 v (X : HyperDual R), RepH s0 t0 v X -> ok (v s0 t0) -> RepH s0 t0 (fun s t => g (v s t)) (br _ _ X)) /\
+  (forall s0 t0 u0 v (X : HyperHyperDual R), RepT s0 t0 u0 v X -> ok (v s0 t0 u0) -> RepT s0 t0 u0 (fun s t u => g (v s t u)) (br _ _ X)) /\
   (forall k, (k = 1 \/ k = 2 \/ k = 3)%nat -> forall t0 v (X : HyperHyperDual R),
      RepX (part:=part_HHD) (wf:=fun _ => True) k t0 v X -> ok (v t0) -> RepX (part:=part_HHD) (wf:=fun _ => True) k t0 (fun t => g (v t)) (br _ _ X)) /\
   (forall (i : nat) t0 v (X : DualVec R),
@@ -192,11 +199,12 @@ Lemma branch_ok (P : prog) (g : R -> R) (ok : R -> Prop) (br : forall (T : Type)
   BranchOK g ok br.
 Proof.
   intros HokR Hexp HgR E1 E2 E3 EH EHH EV E2V EHV.
-  split; [|split; [|split; [|split; [|split; [|split; [|split]]]]]].
+  split; [|split; [|split; [|split; [|split; [|split; [|split; [|split]]]]]]].
   - intros t0 v X H Hk. rewrite <- E1. apply (tr_first P g ok HokR HgR); assumption.
   - intros t0 v X H Hk. rewrite <- E2. apply (tr_second P g ok HokR HgR); assumption.
   - intros t0 v X H Hk. rewrite <- E3. apply (tr_third P g ok HokR HgR); assumption.
   - intros s0 t0 v X H Hk. rewrite <- EH. apply (tr_mixed P g ok HokR HgR); assumption.
+  - intros s0 t0 u0 v X H Hk. rewrite <- EHH. apply (tr_mixed3 P g ok HokR HgR); assumption.
   - intros k Hk t0 v X H Hv. rewrite <- EHH. apply (repX_ext _ _ _ _ (fun t => eval (T:=R) (at_t (v :: nil) t) P)); [|intros; apply HgR].
     apply (directional_HHD k Hk t0 P (v :: nil) (X :: nil)); [constructor; [exact H|constructor]|apply HokR; exact Hv|exact Hexp].
   - intros i t0 v X H Hv. rewrite <- EV. apply (repX_ext _ _ _ _ (fun t => eval (T:=R) (at_t (v :: nil) t) P)); [|intros; apply HgR].
